@@ -31,6 +31,12 @@ type View struct {
 	Panic         interface{}
 	Stack         string
 	Done          bool
+	// connection state once the data phase is over (it differs from the above after a renegotiation)
+	AfterComplete  bool
+	AfterVersion   uint16
+	AfterSuite     uint16
+	AfterPeerCerts [][]byte
+	AfterEKM       []byte
 }
 
 // App describes the data phase of one endpoint.
@@ -125,6 +131,14 @@ func GMEnd(cfg *gmtls.Config, client bool, a App, v *View, keep **gmtls.Conn) fu
 		}
 		v.EKM, v.EKMErr = st.ExportKeyingMaterial("EXPORTER-verif", []byte("ctx"), 32)
 		runApp(c, v, a)
+		st = c.ConnectionState()
+		v.AfterComplete, v.AfterVersion, v.AfterSuite = st.HandshakeComplete, st.Version, st.CipherSuite
+		for _, pc := range st.PeerCertificates {
+			v.AfterPeerCerts = append(v.AfterPeerCerts, pc.Raw)
+		}
+		if st.HandshakeComplete {
+			v.AfterEKM, _ = st.ExportKeyingMaterial("EXPORTER-verif", []byte("ctx"), 32)
+		}
 		v.Done = true
 		return nil
 	}
